@@ -34,14 +34,19 @@ pub open spec fn extra_shares_sum(fees: Seq<Fee>, n: nat) -> nat
 pub open spec fn total_share(f: PoolFee) -> nat {
     f.swap_fee.share@ + f.protocol_fee.share@ + f.burn_fee.share@ + extra_shares_sum(f.extra_fees@, f.extra_fees@.len())
 }
-/// C12: gross amount that must come out of the pool so that `ask` is left after ALL fees: floor(ask * floor(1e36/(1e18 - fees)) / 1e18)
+/// C12: gross amount that must come out of the pool so that `ask` is left after ALL fees, by exact division: floor(ask * 1e18 / (1e18 - fees)).
+/// The quoted offer is computed from this value (fix F10; before it the truncated inverse below was used, which under-quotes by ask * 1e-18).
+pub open spec fn reverse_gross_exact_spec(ask: nat, fees: nat) -> nat {
+    (ask * DEC) / ((DEC - fees) as nat)
+}
+/// the gross amount as *reported* in the fee breakdown of the reverse quote (informational fields): floor(ask * floor(1e36/(1e18 - fees)) / 1e18)
 pub open spec fn reverse_gross_spec(ask: nat, fees: nat) -> nat {
     let inv = (DEC * DEC) / ((DEC - fees) as nat);
     ((((ask * DEC) / 1) * inv) / DEC) / DEC
 }
 /// C12: reverse quote on a constant-product pool: x*y / (y - gross - 1) - x
 pub open spec fn reverse_offer_spec(x: nat, y: nat, ask: nat, fees: nat) -> nat {
-    (((1 * (x * y)) / ((y - reverse_gross_spec(ask, fees) - 1) as nat)) - x) as nat
+    (((1 * (x * y)) / ((y - reverse_gross_exact_spec(ask, fees) - 1) as nat)) - x) as nat
 }
 /// stableswap: the ask reserve the pool keeps after a swap, converted from the solver's (max) precision down by k decimals
 /// - exactly what compute_swap does with `Decimal256::decimal_with_precision(new_pool, k)?.to_uint_floor()`
